@@ -99,6 +99,8 @@ def run_shard(spec, rep):
         else:
             mix = gen.synth_mixture(rng)
             ratio = 10 ** rng.uniform(-3, 3)
+            if rng.random() < 0.05:
+                ratio = 1.0  # isomers: exactly equal molar masses (mass and mole fractions coincide, the labels do not)
             m1 = gen.loguniform(rng, 2, 500)
             mix.first_component.molecular_weight = m1
             mix.second_component.molecular_weight = m1 * ratio
@@ -108,7 +110,7 @@ def run_shard(spec, rep):
         cond = max(1.0, m1 / m2, m2 / m1)
         ps = _fractions(rng)
         case = {"index": index, "masses": mdesc, "fractions": ps}
-        rep.case(case, nontrivial=(m1 != m2), cls="builtin" if isinstance(mdesc, str) else "random-masses")
+        rep.case(case, nontrivial=True, cls="builtin" if isinstance(mdesc, str) else ("equal-masses" if m1 == m2 else "random-masses"))
         try:
             _one_group(rep, case, mix, m1, m2, cond, ps, Composition, CompositionType)
         except InvBroken as e:
